@@ -15,17 +15,20 @@ import (
 
 // Term is a type term of Types.tla. Field K selects which fields are meaningful.
 type Term struct {
-	K   string  `json:"k"`
-	W   int     `json:"w"`   // int
-	FK  string  `json:"fk"`  // float
-	E   *Term   `json:"e"`   // ptr, vec, arr
-	AS  int     `json:"as"`  // ptr
-	SC  bool    `json:"sc"`  // vec
-	N   int     `json:"n"`   // vec, arr
-	PK  bool    `json:"pk"`  // struct
-	FS  []*Term `json:"fs"`  // struct
-	NM  string  `json:"nm"`  // named; struct node of a mutable object (spec/TypesMut.tla): its name, "" = literal
-	OP  bool    `json:"op"`  // struct node of a mutable object: opaque
+	K  string  `json:"k"`
+	W  int     `json:"w"`  // int
+	FK string  `json:"fk"` // float
+	E  *Term   `json:"e"`  // ptr, vec, arr
+	AS int     `json:"as"` // ptr
+	SC bool    `json:"sc"` // vec
+	N  int     `json:"n"`  // vec, arr
+	PK bool    `json:"pk"` // struct
+	FS []*Term `json:"fs"` // struct
+	NM string  `json:"nm"` // named; struct node of a mutable object (spec/TypesMut.tla): its name, "" = literal
+	OP bool    `json:"op"` // struct node of a mutable object: opaque
+	// AL is set by FromType only: the name a non-struct type object carries (TypeName). In LLVM
+	// such a name is an alias of the type; it is not part of the structure and Diff ignores it.
+	AL  string  `json:"-"`
 	Ret *Term   `json:"ret"` // func
 	PS  []*Term `json:"ps"`  // func
 	VA  bool    `json:"va"`  // func
@@ -77,6 +80,8 @@ type Body struct {
 	Opaque bool    `json:"opaque"`
 	PK     bool    `json:"pk"`
 	FS     []*Term `json:"fs"`
+	// Alias: the name stands for a non-struct type (`%V = type <2 x i32>`), see Types!Alias.
+	Alias *Term `json:"alias,omitempty"`
 }
 
 // Universe maps type names to bodies.
@@ -178,6 +183,10 @@ func (u Universe) Defs() string {
 	var b strings.Builder
 	for _, n := range u.Names() {
 		d := u[n]
+		if d.Alias != nil {
+			fmt.Fprintf(&b, "%%%s = type %s\n", QuoteName(n), d.Alias.LL())
+			continue
+		}
 		if d.Opaque {
 			fmt.Fprintf(&b, "%%%s = type opaque\n", QuoteName(n))
 		} else {
@@ -251,10 +260,11 @@ type Builder struct {
 	// own singletons types.I8, types.Double, ... where they exist), as programs
 	// that build IR usually do; state that the library attaches to or keys by
 	// type objects is then shared between everything built from this builder.
-	Intern bool
-	named  map[string]*types.StructType
-	cache  map[string]types.Type
-	depth  int
+	Intern  bool
+	named   map[string]*types.StructType
+	aliases map[string]types.Type
+	cache   map[string]types.Type
+	depth   int
 }
 
 // NewBuilder returns a builder over universe u.
@@ -277,9 +287,28 @@ func (b *Builder) TypeDefs() []types.Type {
 	sort.Strings(ns)
 	var out []types.Type
 	for _, n := range ns {
-		out = append(out, b.namedType(n, false))
+		if b.U[n].Alias != nil {
+			out = append(out, b.aliasType(n))
+		} else {
+			out = append(out, b.namedType(n, false))
+		}
 	}
 	return out
+}
+
+// aliasType returns the (one) type object that carries the alias name nm, as
+// Module.NewTypeDef(nm, t) makes it: an object of its own, never an interned or singleton one.
+func (b *Builder) aliasType(nm string) types.Type {
+	if b.aliases == nil {
+		b.aliases = map[string]types.Type{}
+	}
+	if x, ok := b.aliases[nm]; ok {
+		return x
+	}
+	x := b.build(b.U[nm].Alias)
+	x.SetName(nm)
+	b.aliases[nm] = x
+	return x
 }
 
 func (b *Builder) namedType(nm string, allowFresh bool) *types.StructType {
@@ -373,6 +402,9 @@ func (b *Builder) build(t *Term) types.Type {
 		}
 		return st
 	case "named":
+		if body, ok := b.U[t.NM]; ok && body.Alias != nil {
+			return b.aliasType(t.NM)
+		}
 		return b.namedType(t.NM, true)
 	case "func":
 		ft := &types.FuncType{RetType: b.Type(t.Ret), Variadic: t.VA}
@@ -404,6 +436,16 @@ var floatNames = func() map[types.FloatKind]string {
 
 // FromType reads a library type back into a term (identified structs by name).
 func FromType(t types.Type) *Term {
+	x := fromType(t)
+	if t != nil {
+		if _, isStruct := t.(*types.StructType); !isStruct && x != nil {
+			x.AL = t.Name()
+		}
+	}
+	return x
+}
+
+func fromType(t types.Type) *Term {
 	switch t := t.(type) {
 	case nil:
 		return &Term{K: "nil"}
@@ -554,4 +596,62 @@ func DiffClass(want, got *Term) string {
 		return "="
 	}
 	return strings.Join(d, ",")
+}
+
+// AliasDefs is the universe whose alias names Lies checks (set by the check that uses aliases).
+var AliasDefs Universe
+
+// Lies lists the positions of t where a type object carries a name that is defined as another
+// type: `%V = type <2 x i32>` on an object that is a <4 x i32>. LLVM would read the printed
+// name as the defined type, so the reported type is wrong although its structure is right.
+func Lies(t *Term) []string {
+	var out []string
+	var walk func(path string, t *Term)
+	walk = func(path string, t *Term) {
+		if t == nil {
+			return
+		}
+		if t.AL != "" {
+			def, ok := AliasDefs[t.AL]
+			switch {
+			case !ok || def.Alias == nil:
+				out = append(out, path+" carries the undefined name %"+t.AL)
+			case !Same(derefAliases(def.Alias), t):
+				out = append(out, fmt.Sprintf("%s is named %%%s = %s but is a %s", path, t.AL, def.Alias.Abstract(), t.Abstract()))
+			}
+		}
+		walk(path+".e", t.E)
+		walk(path+".ret", t.Ret)
+		for i, f := range t.FS {
+			walk(fmt.Sprintf("%s.f%d", path, i), f)
+		}
+		for i, p := range t.PS {
+			walk(fmt.Sprintf("%s.p%d", path, i), p)
+		}
+	}
+	walk("top", t)
+	return out
+}
+
+// derefAliases replaces alias names inside a term by what they stand for.
+func derefAliases(t *Term) *Term {
+	if t == nil {
+		return nil
+	}
+	if t.K == "named" {
+		if d, ok := AliasDefs[t.NM]; ok && d.Alias != nil {
+			return derefAliases(d.Alias)
+		}
+		return t
+	}
+	c := *t
+	c.E, c.Ret = derefAliases(t.E), derefAliases(t.Ret)
+	c.FS, c.PS = nil, nil
+	for _, f := range t.FS {
+		c.FS = append(c.FS, derefAliases(f))
+	}
+	for _, p := range t.PS {
+		c.PS = append(c.PS, derefAliases(p))
+	}
+	return &c
 }
